@@ -102,7 +102,63 @@ def shard_named(arg):
     return rep
 
 
+def shard_bell_swap(arg):
+    """exhaustive family of very cheap inputs: a Bell pair created on a coupled pair and moved by one or two SWAPs between
+    ARBITRARY qubits (h a; cx/cz a,b; swap ...): inputs whose own cost can be below the connectivity-respecting optimum"""
+    n, name, seed, two_swaps = arg
+    rep = fw.Report()
+    edges = sorted(coupling.edge_set(n, name))
+    pairs = [(i, j) for i in range(n) for j in range(i + 1, n)]
+    i = 0
+    for (a0, b0) in edges:
+        for (a, b) in ((a0, b0), (b0, a0)):
+            for gate in ("cx", "cz"):
+                base = [["h", [a]]] + ([["h", [b]]] if gate == "cz" else []) + [[gate, [a, b]]]
+                for s1 in pairs:
+                    if not (set(s1) & {a, b}):
+                        continue
+                    seqs = [[["swap", list(s1)]]]
+                    moved = {s1[0] if s1[1] in (a, b) else s1[1]}
+                    for s2 in pairs:
+                        if two_swaps and s2 != s1 and (set(s2) & (set(s1) | {a, b})) and fw.h64("c07bs", seed, n, name, a, b, s1, s2) % 3 == 0:
+                            seqs.append([["swap", list(s1)], ["swap", list(s2)]])
+                    for sw in seqs:
+                        i += 1
+                        case = {"n": n, "connectivity": name, "ops": base + sw, "format": "circuit"}
+                        nt, tabs = classify(case)
+                        rep.case(nt, case if i % 400 == 7 else None)
+                        rep.count("config", f"{n}-{name}")
+                        rep.count("bell_pair_moved_by_swaps", f"n={n}")
+                        for key, msg, extra in check_compress(case):
+                            rep.fail(key, case, msg + " [Bell pair moved by SWAPs]", **extra)
+    return rep
+
+
+def shard_classes(arg):
+    """one constructed member of every (configuration, LC class), written as graph-state circuit + local gates"""
+    n, orbits, seed = arg
+    from gen import members as _m
+    rep = fw.Report()
+    for o in orbits:
+        rng = fw.rng_for("c07c", seed, n, o)
+        gens, info = _m.member(n, o, rng)
+        circ = [["h", [q]] for q in range(n)] + [["cz", list(e)] for e in lc.edges_from_gid(n, info["graph"])] + info["layer"]
+        for name in [c[1] for c in coupling.CONFIGS if c[0] == n]:
+            case = {"n": n, "connectivity": name, "ops": circ, "format": "circuit"}
+            nt, tabs = classify(case)
+            rep.case(nt, None)
+            rep.count("config", f"{n}-{name}")
+            rep.count("one_member_per_class", "n=%d" % n)
+            for key, msg, extra in check_compress(case):
+                rep.fail(key, case, msg, **extra)
+    return rep
+
+
 def shard_any(arg):
+    if arg[0] == "classes":
+        return shard_classes(arg[1:])
+    if arg[0] == "bellswap":
+        return shard_bell_swap(arg[1:])
     if arg[0] == "named":
         return shard_named(arg[1:])
     return shard(arg)
@@ -110,7 +166,12 @@ def shard_any(arg):
 
 def run(ctx):
     per = 100 if ctx.quick else 6000
-    args = [("named", n, ctx.seed, part, {2: 1, 3: 1, 4: 2, 5: 6, 6: 16}[n]) for n in (6, 5, 4, 3, 2) for part in range({2: 1, 3: 1, 4: 2, 5: 6, 6: 16}[n])] + [(ctx.seed * 1000 + i, per, ctx.deadline) for i in range(16)]
+    from gen import members as _m
+    cargs = []
+    for n in (6, 5, 4, 3, 2):
+        for chunk in fw.split(_m.orbit_reps(n), {2: 1, 3: 1, 4: 1, 5: 6, 6: 64}[n]):
+            cargs.append(("classes", n, chunk, ctx.seed))
+    args = cargs + [("bellswap", n, name, ctx.seed, not ctx.quick) for (n, name) in sorted(coupling.CONFIGS, key=lambda c: -c[0])] + [("named", n, ctx.seed, part, {2: 1, 3: 1, 4: 2, 5: 6, 6: 16}[n]) for n in (6, 5, 4, 3, 2) for part in range({2: 1, 3: 1, 4: 2, 5: 6, 6: 16}[n])] + [(ctx.seed * 1000 + i, per, ctx.deadline) for i in range(16)]
     rep = fw.run_shards(ctx, "props.c07", "shard_any", args)
     rep.extra["classes_hit"] = {k[len("orbits_n"):]: len(v) for k, v in rep.hist.items() if k.startswith("orbits_n")}
     for k in [k for k in rep.hist if k.startswith("orbits_n")]:
